@@ -71,8 +71,29 @@ func getScript(name string) script {
 	return scripts[name]
 }
 
+// mockCfg is what a configurable mock is configured with: a scalar and two reference-typed fields. The mock
+// reports what it was handed and then does to ITS OWN configuration what a rule body may do to it (filter and
+// sort in place): every instance is owed a freshly decoded configuration.
 type mockCfg struct {
 	Level int
+	List  []string
+	Nums  []int
+}
+
+var cfgSeen = map[string][]string{}
+
+func (m *mockBase) seeCfg(c *mockCfg) {
+	mu.Lock()
+	cfgSeen[m.name] = append(cfgSeen[m.name], fmt.Sprintf("%d|%s|%v", c.Level, strings.Join(c.List, ","), c.Nums))
+	mu.Unlock()
+	for i := range c.List {
+		c.List[i] = "overwritten"
+	}
+	c.List = c.List[:0]
+	sort.Sort(sort.Reverse(sort.IntSlice(c.Nums)))
+	for i := range c.Nums {
+		c.Nums[i] = -c.Nums[i] - 1
+	}
 }
 
 type mockBase struct {
@@ -115,7 +136,7 @@ type mockCertCfg struct {
 }
 
 func (m *mockCertCfg) Configure() interface{}                       { m.configure(); return &m.cfg }
-func (m *mockCertCfg) CheckApplies(c *x509.Certificate) bool        { return m.applies() }
+func (m *mockCertCfg) CheckApplies(c *x509.Certificate) bool        { m.seeCfg(&m.cfg); return m.applies() }
 func (m *mockCertCfg) Execute(c *x509.Certificate) *lint.LintResult { return m.result() }
 
 type mockCRL struct{ mockBase }
@@ -129,7 +150,7 @@ type mockCRLCfg struct {
 }
 
 func (m *mockCRLCfg) Configure() interface{}                          { m.configure(); return &m.cfg }
-func (m *mockCRLCfg) CheckApplies(c *x509.RevocationList) bool        { return m.applies() }
+func (m *mockCRLCfg) CheckApplies(c *x509.RevocationList) bool        { m.seeCfg(&m.cfg); return m.applies() }
 func (m *mockCRLCfg) Execute(c *x509.RevocationList) *lint.LintResult { return m.result() }
 
 type mockOCSP struct{ mockBase }
@@ -143,7 +164,7 @@ type mockOCSPCfg struct {
 }
 
 func (m *mockOCSPCfg) Configure() interface{}                    { m.configure(); return &m.cfg }
-func (m *mockOCSPCfg) CheckApplies(c *ocsp.Response) bool        { return m.applies() }
+func (m *mockOCSPCfg) CheckApplies(c *ocsp.Response) bool        { m.seeCfg(&m.cfg); return m.applies() }
 func (m *mockOCSPCfg) Execute(c *ocsp.Response) *lint.LintResult { return m.result() }
 
 type mockInfo struct {
@@ -238,6 +259,8 @@ type mockSetup struct {
 	IneffNano int    `json:"ineff_nano,omitempty"`
 	Zone      int    `json:"zone_s,omitempty"`
 	BadConfig bool   `json:"bad_config,omitempty"` // ill-typed section for this (configurable) mock
+	// CfgVals, when set (configurable mocks, no BadConfig): a well-typed section with these values
+	CfgVals *mockCfg `json:"cfg_vals,omitempty"`
 }
 
 type mockCase struct {
@@ -294,7 +317,7 @@ func judge(rec *stats.Rec, c mockCase, prop string) (string, string) {
 		return "", ""
 	}
 	var names []string
-	cfgDoc := ""
+	cfgDoc, sections := "", ""
 	mu.Lock()
 	scripts = map[string]script{}
 	mu.Unlock()
@@ -311,8 +334,16 @@ func judge(rec *stats.Rec, c mockCase, prop string) (string, string) {
 		m.IneffectiveDate = mkTime(ms.IneffUnix, ms.IneffNano, -ms.Zone)
 		if ms.BadConfig && mi.Configurable {
 			cfgDoc += fmt.Sprintf("%s = 7\n", ms.Name)
-		} else if mi.Configurable {
-			// well-typed section for some of them
+		} else if mi.Configurable && ms.CfgVals != nil {
+			ls := make([]string, len(ms.CfgVals.List))
+			for i, x := range ms.CfgVals.List {
+				ls[i] = fmt.Sprintf("%q", x)
+			}
+			ns := make([]string, len(ms.CfgVals.Nums))
+			for i, x := range ms.CfgVals.Nums {
+				ns[i] = fmt.Sprint(x)
+			}
+			sections += fmt.Sprintf("[%s]\nLevel = %d\nList = [%s]\nNums = [%s]\n", ms.Name, ms.CfgVals.Level, strings.Join(ls, ", "), strings.Join(ns, ", "))
 		}
 	}
 	defer func() {
@@ -327,7 +358,7 @@ func judge(rec *stats.Rec, c mockCase, prop string) (string, string) {
 	if err != nil {
 		return "", ""
 	}
-	cfg, err := lint.NewConfigFromString(cfgDoc)
+	cfg, err := lint.NewConfigFromString(cfgDoc + sections)
 	if err != nil {
 		return "", ""
 	}
@@ -340,10 +371,11 @@ func judge(rec *stats.Rec, c mockCase, prop string) (string, string) {
 		}
 	}
 	calls = nil
+	cfgSeen = map[string][]string{}
 	mu.Unlock()
 	var rs *zlint.ResultSet
 	panicked := ""
-	func() {
+	lintOnce := func() {
 		defer func() {
 			if r := recover(); r != nil {
 				panicked = fmt.Sprint(r)
@@ -357,10 +389,61 @@ func judge(rec *stats.Rec, c mockCase, prop string) (string, string) {
 		case gen.OCSP:
 			rs = zlint.LintOcspResponseEx(resp, reg)
 		}
-	}()
+	}
+	lintOnce()
 	mu.Lock()
 	log := append([]string{}, calls...)
+	seen1 := map[string][]string{}
+	for k, v := range cfgSeen {
+		seen1[k] = append([]string{}, v...)
+	}
 	mu.Unlock()
+	rs1, panicked1 := rs, panicked
+	// the same object again, through the same registry and configuration: a fresh instance, freshly
+	// configured - whatever the first instance did to its own configuration
+	if prop == "C04" && panicked1 == "" {
+		mu.Lock()
+		calls = nil
+		cfgSeen = map[string][]string{}
+		mu.Unlock()
+		rs, panicked = nil, ""
+		lintOnce()
+		mu.Lock()
+		seen2 := cfgSeen
+		cfgSeen = map[string][]string{}
+		mu.Unlock()
+		if panicked != "" {
+			return "second-run-panic|" + string(c.Kind), "the second run on the same registry panicked: " + panicked
+		}
+		for _, ms := range c.Mocks {
+			if !reflect.DeepEqual(seen1[ms.Name], seen2[ms.Name]) {
+				return "configuration-not-fresh|" + string(c.Kind), fmt.Sprintf("%s: first run was configured with %v, second run (same registry, same configuration) with %v", ms.Name, seen1[ms.Name], seen2[ms.Name])
+			}
+			if rs1 != nil && rs != nil && rs1.Results[ms.Name] != nil && rs.Results[ms.Name] != nil && rs1.Results[ms.Name].Status != rs.Results[ms.Name].Status {
+				return "second-run-status|" + string(c.Kind), fmt.Sprintf("%s: %s on the first run, %s on the second", ms.Name, rs1.Results[ms.Name].Status, rs.Results[ms.Name].Status)
+			}
+		}
+	}
+	rs, panicked = rs1, panicked1
+	// what each configurable mock saw must be what the document says
+	if prop == "C04" {
+		for _, ms := range c.Mocks {
+			mi := byName(ms.Name)
+			if mi == nil || !mi.Configurable || ms.BadConfig || len(seen1[ms.Name]) == 0 {
+				continue
+			}
+			want := "0||[]"
+			if ms.CfgVals != nil {
+				want = fmt.Sprintf("%d|%s|%v", ms.CfgVals.Level, strings.Join(ms.CfgVals.List, ","), ms.CfgVals.Nums)
+				if len(ms.CfgVals.Nums) == 0 {
+					want = fmt.Sprintf("%d|%s|[]", ms.CfgVals.Level, strings.Join(ms.CfgVals.List, ","))
+				}
+			}
+			if seen1[ms.Name][0] != want {
+				return "configured-values|" + string(c.Kind), fmt.Sprintf("%s was configured with %q, the document says %q", ms.Name, seen1[ms.Name][0], want)
+			}
+		}
+	}
 	perMock := map[string][]string{}
 	inst := map[string]map[string]bool{}
 	for _, e := range log {
@@ -618,6 +701,11 @@ func TestMock(t *testing.T) {
 				}
 				ms.Script.Details = rapid.SampledFrom([]string{"", "details", "x\xffy", "'" + mi.Name + "' panicked. Error: no", " "}).Draw(rt, "details")
 				ms.BadConfig = mi.Configurable && rapid.IntRange(0, 5).Draw(rt, "badcfg") == 0
+				if mi.Configurable && !ms.BadConfig && rapid.Bool().Draw(rt, "cfgvals") {
+					ms.CfgVals = &mockCfg{Level: rapid.IntRange(-3, 9).Draw(rt, "level"),
+						List: rapid.SliceOfN(rapid.SampledFrom([]string{"a", "b", "c", "allow", "deny", ""}), 0, 4).Draw(rt, "list"),
+						Nums: rapid.SliceOfN(rapid.IntRange(0, 50), 0, 4).Draw(rt, "nums")}
+				}
 				d := date.Unix()
 				drawBound := func(lbl string) (*int64, int) {
 					switch rapid.IntRange(0, 7).Draw(rt, lbl+"kind") {
